@@ -952,10 +952,8 @@ impl Model {
                     (AppVerdict::Unspecified(why), u) => {
                         j.class = format!("udp-abstain:{}", if u.is_some() { "answered" } else { "silent" });
                         j.abstained = Some(why.clone());
-                        if let Some(u) = u {
-                            // whatever answered, the port mirror must hold
-                            self.check_udp_ports(&u, ctx, false, j);
-                        }
+                        // (the loose port mirror of the invariants still applies)
+                        let _ = u;
                     }
                     (AppVerdict::Answer(req), None) => {
                         j.class = format!("udp-unanswered:{}", req.kind());
@@ -1024,7 +1022,7 @@ impl Model {
         }
         let change = matches!(app, AppVerdict::Answer(r) if r.change_port());
         let want = if change { ctx.sport.wrapping_add(1) } else { ctx.sport };
-        if !matches!(app, AppVerdict::Unspecified(_)) && t.sport != want {
+        if !matches!(app, AppVerdict::Unspecified(_)) && !(change && t.payload.is_empty()) && t.sport != want {
             j.findings
                 .push(finding("C03", "tcp-src-port", format!("reply source port {} (want {})", t.sport, want)));
         }
